@@ -94,7 +94,9 @@ def redo(ctx, world, ops):
     operation opened and stored."""
     req = {"root": world["root"], "cwd": world["cwd"], "patterns": world["patterns"] or [],
            "dirs": world.get("dirs") or [], "files": world.get("files") or [],
-           "scribble": world.get("scribble") or [], "ops": ops}
+           "scribble": world.get("scribble") or [], "data_dir": world.get("data_dir") or "",
+           "planted_dirs": world.get("planted_dirs") or [], "planted_files": world.get("planted_files") or [],
+           "ops": ops}
     rin, rout = ctx.path("c17_redo_in.json"), ctx.path("c17_redo.ndjson")
     with open(rin, "w") as fh:
         json.dump(req, fh)
@@ -265,12 +267,20 @@ def prepare(ctx, vectors, rng):
         v["var"] = (ctx.seed * 1000003 + i * 7919) % (1 << 62)
         sel.append(v)
     if ctx.quick:
-        # Sample: every vector whose spec bound is non-empty for some entry with
-        # probability 1/3, the others 1/14; one seeded entry point each.
+        # Sample, one seeded entry point each: 1/4 of the vectors whose spec
+        # bound is non-empty, 1/20 of the others -- but 1/2 of the vectors whose
+        # location contains a RARE name (one that occurs in fewer than 1000
+        # vectors: the small location families would otherwise hardly be seen).
+        freq = {}
+        for v in sel:
+            for n in set(v["loc"]["segs"]):
+                freq[n] = freq.get(n, 0) + 1
         out = []
         for v in sel:
             nontrivial = bool(v["add"] or v["refresh"])
-            p = 0.34 if nontrivial else 0.07
+            p = 0.25 if nontrivial else 0.05
+            if any(freq[n] < 1000 for n in v["loc"]["segs"]):
+                p = 0.5
             if rng.random() < p:
                 v["entries"] = [ENTRIES[rng.randrange(3)]]
                 out.append(v)
@@ -324,7 +334,7 @@ def run(ctx):
     if len(edges) < 10000:
         raise vlib.Inconclusive("edge generation incomplete: %d edges" % len(edges))
     edges.sort(key=lambda e: json.dumps([e["cfg"], e["own"], e["src"], e["act"], e["loc"]], sort_keys=True))
-    walks, ecov, etotal = make_walks(ctx, edges, rng, 40, 20000 if ctx.quick else None)
+    walks, ecov, etotal = make_walks(ctx, edges, rng, 40, 12000 if ctx.quick else None)
     ctx.log("walking %d of %d edges in %d walks (%d steps)" % (ecov, etotal, len(walks), sum(len(w["steps"]) for w in walks)))
     wrows, wsumm = go_walk(ctx, tables, walks)
     for r in wrows:
